@@ -41,6 +41,8 @@ def obligations(tier, seed=0):
         if fn not in ('mpc_atan', 'mpc_atanh'):        # these two take ~1 min each (symbolic additions at prec+15 bits)
             obs.append(('checks.fam_elem:cwrap_bits', dict(fn=fn, prec=10, rnd='f')))
             obs.append(('checks.fam_elem:cwrap_bits', dict(fn=fn, prec=3, rnd='u', rexp=4, iexp=-6)))
+    for prec, rnd in ((2, 'n'), (3, 'f'), (2, 'u')):
+        obs.append(('checks.fam_elem:cwrap_bits', dict(fn='mpc_agm', prec=prec, rnd=rnd, two=True)))
     # _wrap_specfun: the closure around every @defun_wrapped special function hands back +retval (rounded to the context
     # precision) whatever the wrapped function returns at prec+10
     for name, kind in (('acot', 'mpf'), ('sec', 'mpc'), ('_erf_complex', 'mpc'), ('csch', 'mpf'), ('acsc', 'mpf')):
